@@ -30,6 +30,11 @@ def hx(b):
     return b.hex() if b else "-"
 
 
+def hn(b):
+    """empty = NULL pointer"""
+    return b.hex() if b else "."
+
+
 def codec_set_cases(ctx, r, certs, points):
     """setters on structured random admissible fields and on the boundary lengths (0, 1, max, max + 1)"""
     thorough = ctx.tier == "thorough"
@@ -51,7 +56,7 @@ def codec_set_cases(ctx, r, certs, points):
         cs = "".join(r.choice(KNOWN_CS) for _ in range(ncs))
         pr = r.choice(KNOWN_VERS)
         ex = r.choice([".", ".", hx(r.bytes(r.choice([1, 4, 60, 512])))])
-        add("setch %s %s %s %s %s %s" % (rv(), pr, rnd32(), hx(sid), cs, ex), "setch:%s:%s" % ("sid32" if sid else "nosid", "noexts" if ex == "." else ("exts" if int(pr, 16) >= 0x0303 else "exts-before-tls12")))
+        add("setch %s %s %s %s %s %s" % (rv(), pr, rnd32(), hn(sid), cs, ex), "setch:%s:%s" % ("sid32" if sid else "nosid", "noexts" if ex == "." else ("exts" if int(pr, 16) >= 0x0303 else "exts-before-tls12")))
     for sl in (1, 31, 33):
         add("setch 0303 0303 %s %s e011 ." % (rnd32(), r.bytes(sl).hex()), "setch:sid-len-not-32")
     add("setch 0303 0303 %s . . ." % rnd32(), "setch:no-ciphers")
@@ -68,7 +73,7 @@ def codec_set_cases(ctx, r, certs, points):
         sid = r.choice([b"", r.bytes(1), r.bytes(31), r.bytes(32)])
         pr = r.choice(KNOWN_VERS)
         ex = r.choice([".", ".", hx(r.bytes(r.choice([1, 4, 60, 512]))), "-"])
-        add("setsh %s %s %s %s %s %s" % (rv(), pr, rnd32(), hx(sid), r.choice(KNOWN_CS), ex), "setsh:sid%s:%s" % ("0" if not sid else "n", "noexts" if ex == "." else ("exts" if int(pr, 16) >= 0x0303 else "exts-before-tls12")))
+        add("setsh %s %s %s %s %s %s" % (rv(), pr, rnd32(), hn(sid), r.choice(KNOWN_CS), ex), "setsh:sid%s:%s" % ("0" if not sid else "n", "noexts" if ex == "." else ("exts" if int(pr, 16) >= 0x0303 else "exts-before-tls12")))
     add("setsh 0303 0303 %s %s e011 ." % (rnd32(), r.bytes(33).hex()), "setsh:sid-max+1")
     add("setsh 0303 0303 %s . abcd ." % rnd32(), "setsh:unknown-cipher")
     add("setsh 0303 0777 %s . e011 ." % rnd32(), "setsh:unknown-protocol")
@@ -106,11 +111,14 @@ def codec_set_cases(ctx, r, certs, points):
         return out
     for i in range(40 if not thorough else 200):
         ty = bytes(r.choice(KNOWN_CT) for _ in range(r.choice([1, 1, 2, 5, 255])))
-        add("setcr %s %s %s" % (rv(), hx(ty), hx(names(r.choice([0, 1, 2, 5])))), "setcr:wellformed")
+        add("setcr %s %s %s" % (rv(), hx(ty), hn(names(r.choice([0, 1, 2, 5])))), "setcr:wellformed")
     add("setcr 0303 . .", "setcr:no-types")
-    add("setcr 0303 %s -" % bytes([64] * 256).hex(), "setcr:types-256")
-    add("setcr 0303 %s -" % bytes([64] * 257).hex(), "setcr:types-257")
-    add("setcr 0303 4007 -", "setcr:unknown-type")
+    add("setcr 0303 %s ." % bytes([64] * 256).hex(), "setcr:types-256")
+    add("setcr 0303 %s ." % bytes([64] * 257).hex(), "setcr:types-257")
+    add("setcr 0303 4007 .", "setcr:unknown-type")
+    # non-NULL pointer with length 0 (refused) against NULL (absent)
+    add("setcr 0303 - .", "setcr:types-nonnull-empty"); add("setcr 0303 40 -", "setcr:names-nonnull-empty"); add("setcr 0303 . 00026162", "setcr:types-null")
+    add("setch 0303 0303 %s - e011 ." % rnd32(), "setch:sid-nonnull-empty"); add("setsh 0303 0303 %s - e011 ." % rnd32(), "setsh:sid-nonnull-empty")
     add("setcr 0303 40 0005aabb", "setcr:names-malformed")
     for n in (16376, 16377, 16378):
         add("setcr 0303 40 %s" % r.bytes(n).hex(), "setcr:names-around-max")
@@ -119,10 +127,18 @@ def codec_set_cases(ctx, r, certs, points):
         add("setshd %s" % v, "setshd:%s" % ("known-version" if v in KNOWN_VERS else "unknown-version"))
     for n in (0, 1, 11, 12, 13, 31, 32, 33, 48):
         add("setfin %s %s" % (rv(), hx(r.bytes(n))), "setfin:len-%s" % ("ok" if n in (12, 32) else "bad"))
+    # every setter once more with a record whose version bytes are not a known protocol: tls_record_set_handshake
+    # then fails, and the setter either reports that (ERR) or ignores it (UNFINISHED)
+    per = {}
+    for (l, c) in list(cases):
+        w = l.split(" ", 2)
+        if w[0] != "seths" and len(w) == 3 and per.get(w[0], 0) < 4 and w[1] in KNOWN_VERS + ["0303", "0101"]:
+            per[w[0]] = per.get(w[0], 0) + 1
+            add("%s %s %s" % (w[0], r.choice(["0000", "0404", "1234"]), w[2]), w[0] + ":unknown-record-version")
     return cases
 
 
-def codec_mutations(ctx, r, op, rec):
+def codec_mutations(ctx, r, op, rec, every=False):
     """malformed neighbours of a valid record: always re-framed so that the bytes are 5 + declared length long,
     except for two deliberately ill-framed ones (both sides then answer PRECONDITION)"""
     out = []
@@ -150,11 +166,16 @@ def codec_mutations(ctx, r, op, rec):
             x = bytearray(b[:-1]); x[6:9] = (hl - 1).to_bytes(3, "big"); out.append((frame(x), "truncated:both-lengths-adjusted"))
         out.append((frame(bytes(b[:9])), "body-removed"))
         x = bytearray(b[:9]); x[6:9] = b"\0\0\0"; out.append((frame(x), "empty-body"))
-        # inner bytes: flips at a few positions of the body, lengths re-framed
-        for _ in range(6):
-            if len(b) > 9:
-                pos = 9 + r.below(len(b) - 9)
+        # inner bytes: one bit flipped at EVERY position of a short body (every field, length byte and fixed
+        # value of the message is hit), at a few positions of a long one
+        if every and len(b) <= 9 + 160:
+            for pos in range(9, len(b)):
                 x = bytearray(b); x[pos] ^= 1 << r.below(8); out.append((bytes(x), "flip:body"))
+        else:
+            for _ in range(6):
+                if len(b) > 9:
+                    pos = 9 + r.below(len(b) - 9)
+                    x = bytearray(b); x[pos] ^= 1 << r.below(8); out.append((bytes(x), "flip:body"))
         # insert / delete one body byte keeping both outer lengths consistent (inner vectors then overrun or leave bytes)
         if len(b) > 10:
             pos = 9 + r.below(len(b) - 9)
@@ -164,6 +185,56 @@ def codec_mutations(ctx, r, op, rec):
     out.append((bytes(b) + b"\0", "ill-framed:longer-than-declared"))
     if len(b) > 5:
         out.append((bytes(b[:-1]), "ill-framed:shorter-than-declared"))
+    return out
+
+
+def codec_crafted(ctx, r, certs, points):
+    """records built field by field here (not by a setter): every field at and just outside the range the getter
+    admits, everything else valid, both length layers consistent"""
+    out = []
+    u8 = lambda b: bytes([len(b)]) + b
+    u16 = lambda b: len(b).to_bytes(2, "big") + b
+    u24 = lambda b: len(b).to_bytes(3, "big") + b
+    def rec(t, body, ver="0303"):
+        return bytes([22]) + bytes.fromhex(ver) + (4 + len(body)).to_bytes(2, "big") + bytes([t]) + len(body).to_bytes(3, "big") + body
+    rnd = lambda: r.bytes(32)
+    for sl in (0, 1, 31, 32, 33, 64, 255):
+        out.append(("getsh " + rec(2, b"\x03\x03" + rnd() + u8(r.bytes(sl)) + b"\xe0\x13\x00").hex(), "getsh:crafted:sid-len-%s" % ("ok" if sl <= 32 else "over")))
+        out.append(("getch " + rec(1, b"\x03\x03" + rnd() + u8(r.bytes(sl)) + u16(b"\xe0\x13") + u8(b"\0")).hex(), "getch:crafted:sid-len-%s" % ("ok" if sl <= 32 else "over")))
+    for comp in (b"", b"\0", b"\1", b"\1\0", b"\0" * 255):
+        out.append(("getch " + rec(1, b"\x03\x03" + rnd() + u8(b"") + u16(b"\xe0\x13") + u8(comp)).hex(), "getch:crafted:compression-methods"))
+    for comp in (0, 1, 255):
+        for ex in (b"", u16(b""), u16(b"\0\0\0\0"), u16(b"\0\0\0\0") + b"\0"):
+            out.append(("getsh " + rec(2, b"\x03\x03" + rnd() + u8(b"") + b"\xe0\x13" + bytes([comp]) + ex).hex(), "getsh:crafted:compression-%d:exts" % min(comp, 1)))
+    for cs in (b"", b"\xe0", b"\xe0\x13", b"\xe0\x13\x00", b"\xab\xcd", b"\xe0\x13" * 200):
+        out.append(("getch " + rec(1, b"\x03\x03" + rnd() + u8(b"") + u16(cs) + u8(b"\0")).hex(), "getch:crafted:cipher-bytes-%s" % ("even" if len(cs) % 2 == 0 else "odd")))
+    for ex in (u16(b""), u16(b"\0\x0a\0\0"), u16(b"\0\x0a\0\0") + b"\0", b"\0"):
+        out.append(("getch " + rec(1, b"\x03\x03" + rnd() + u8(b"") + u16(b"\xe0\x13") + u8(b"\0") + ex).hex(), "getch:crafted:exts"))
+    for ver in ("0101", "0302", "0303", "0304", "0305", "0000"):
+        for rv in ("0101", "0303", "0304"):
+            out.append(("getsh " + rec(2, bytes.fromhex(ver) + rnd() + u8(b"") + b"\xe0\x13\x00", rv).hex(), "getsh:crafted:version-vs-record-version"))
+            out.append(("getch " + rec(1, bytes.fromhex(ver) + rnd() + u8(b"") + u16(b"\xe0\x13") + u8(b"\0"), rv).hex(), "getch:crafted:version-vs-record-version"))
+    for n in (0, 1, 11, 12, 13, 31, 32, 33, 48):
+        out.append(("getfin " + rec(20, r.bytes(n)).hex(), "getfin:crafted:len-%s" % ("ok" if n in (12, 32) else "other")))
+    for n in (0, 1, 72, 73, 300):
+        sg = r.bytes(n)
+        out.append(("getcv " + rec(15, u16(sg)).hex(), "getcv:crafted:sig-len-%s" % ("in-range" if 1 <= n <= 72 else "out-of-range")))
+        out.append(("getskp " + rec(12, u16(sg), "0101").hex(), "getskp:crafted:sig-len-%s" % ("in-range" if 1 <= n <= 72 else "out-of-range")))
+        out.append(("getskp " + rec(12, u16(sg), "0303").hex(), "getskp:crafted:not-tlcp"))
+        out.append(("getckp " + rec(16, u16(sg)).hex(), "getckp:crafted:len"))
+        pt = r.choice(points)
+        for (ct, cv, alg) in ((3, 41, 0x0708), (1, 41, 0x0708), (3, 23, 0x0708), (3, 41, 0x0403), (3, 41, 0x0707)):
+            out.append(("getske " + rec(12, bytes([ct]) + cv.to_bytes(2, "big") + u8(pt) + alg.to_bytes(2, "big") + u16(sg)).hex() + " *", "getske:crafted:%s" % ("wellformed" if (ct, cv, alg) == (3, 41, 0x0708) else "wrong-constant")))
+    for pt in (points[0], points[0][:64], points[0] + b"\0", b"\x04" + bytes(64), b"\x02" + points[0][1:33], b""):
+        out.append(("getckee " + rec(16, u8(pt)).hex() + " *", "getckee:crafted:point"))
+        out.append(("getske " + rec(12, b"\x03\x00\x29" + u8(pt) + b"\x07\x08" + u16(b"\x30\x00")).hex() + " *", "getske:crafted:point"))
+    for ty in (b"", b"\x01", b"\x40\x07", b"\x07", bytes([64]) * 255):
+        for nm in (b"", u16(b"abc"), u16(b"abc") + b"\0", u16(b"abc") + u16(b""), b"\0\5abc"):
+            out.append(("getcr " + rec(13, u8(ty) + u16(nm)).hex(), "getcr:crafted"))
+    c0 = certs[0]
+    for lst in (b"", u24(c0), u24(c0) + u24(c0), u24(b""), u24(c0) + u24(b""), u24(c0 + b"\0"), u24(c0[:-1]), u24(c0) + b"\0\0", u24(c0)[:-1]):
+        out.append(("getcert " + rec(11, u24(lst)).hex() + " *", "getcert:crafted:list"))
+        out.append(("getcert " + rec(11, u24(lst) + b"\x09").hex() + " *", "getcert:crafted:bytes-after-list"))
     return out
 
 
@@ -191,6 +262,7 @@ def codec(ctx):
     mouts, _ = core.run_lines(model, [l for l, _ in setc])
     # wave 2: getters on what the model's setters produced, and on their malformed neighbours, and on garbage
     getc = []
+    nper = {}
     for (l, c), o in zip(setc, mouts):
         op = l.split(" ", 1)[0]
         if o.startswith(("ERR", "UNFINISHED", "MODEL")):
@@ -200,7 +272,8 @@ def codec(ctx):
         tail = " *" if g in TABLED else ""
         getc.append(("%s %s%s" % (g, o, tail), "%s:valid" % g))
         if len(rec) <= 600 or r.chance(1, 6):
-            for (m, cls) in codec_mutations(ctx, r, op, rec):
+            nper[g] = nper.get(g, 0) + 1
+            for (m, cls) in codec_mutations(ctx, r, op, rec, every=(nper[g] <= (8 if ctx.tier != "thorough" else 60))):
                 getc.append(("%s %s%s" % (g, m.hex(), tail), "%s:%s" % (g, cls)))
         # a record of one message type presented to another getter
         g2 = r.choice(sorted(set(GETTER.values())))
@@ -214,6 +287,7 @@ def codec(ctx):
                 hdr = bytes([r.choice([1, 2, 11, 12, 13, 14, 15, 16, 20])]) + (n - 4).to_bytes(3, "big")
                 rec = bytes([22, 3, 3]) + n.to_bytes(2, "big") + hdr + body[4:]
                 getc.append(("%s %s%s" % (g, rec.hex(), " *" if g in TABLED else ""), "%s:garbage-framed" % g))
+    getc += codec_crafted(ctx, r, certs, points)
     # the byte strings cert_ok / point_ok will be asked about: first pass with "*", then ask the library
     tabled = [i for i, (l, c) in enumerate(getc) if l.split(" ", 1)[0] in TABLED]
     p1, _ = core.run_lines(model, [getc[i][0] for i in tabled])
@@ -292,7 +366,10 @@ def run(ctx):
                 only_some = plain_hs and ht in (0x0d, 0x0f) or (plain_hs and ht == 0x0b and d == 0)
                 if nca > 1 and not only_some and not thorough:
                     continue                                   # the extra configuration is there for those messages
-                st = 1 if only_some else step
+                # the two hello messages: every byte in every configuration (some of their bytes -- compression
+                # methods, session id -- influence nothing but the transcript hash)
+                hello = plain_hs and ht in (1, 2)
+                st = 1 if (only_some or hello) else step
                 offs = set(range(5 + (r.below(st) if st > 1 else 0), ln, st))
                 if plain_hs:
                     offs |= {5, 6, 7, 8} & set(range(ln))          # handshake type and uint24 length
@@ -301,7 +378,7 @@ def run(ctx):
                     bits = range(8) if (thorough and (off in (5, 6, 7, 8) or off % 16 == 0)) else [r.below(8)]
                     for bit in bits:
                         cls = "hs-header" if (plain_hs and off in (5, 6, 7, 8)) else ("plain-body" if plain_hs else ("ccs" if typ == 20 else "protected"))
-                        cases.append(("%s flip %d %d %d %d 0%s" % (base, d, i, off, bit, tail), "%s:flip:%s" % (cellb, cls + (":client-auth-message" if only_some else "")), (d, i == nhs[d] - 1), "flip"))
+                        cases.append(("%s flip %d %d %d %d 0%s" % (base, d, i, off, bit, tail), "%s:flip:%s" % (cellb, cls + (":client-auth-message" if only_some else (":hello" if hello else ""))), (d, i == nhs[d] - 1), "flip"))
                 for kind, keeps in (("drop", [0]), ("dup", [0]), ("swap", [0]), ("inject", [0]),
                                     ("trunc-close", sorted({5, ln - 1, 5 + r.below(max(1, ln - 5))})),
                                     ("trunc-fixlen", sorted({5, ln - 1, 5 + r.below(max(1, ln - 5))}))):
@@ -354,6 +431,16 @@ def replay(path):
     r = json.load(open(path)); op = r.get("replay", {}).get("op")
     if not op:
         print("replay names a proof obligation, not an input:", json.dumps(r.get("replay"))[:800]); return 0
+    if op.split(" ", 1)[0] in set(GETTER) | set(GETTER.values()) | {"seths", "geths", "certok", "pointok", "mkcert", "mkpoint"}:
+        import os                      # an op of the handshake codec: library function against the extracted model
+        exe, log = core.build_harness("C10codec", "asan", sources=[os.path.join(core.ROOT, "props", "C10", "hscodec_harness.c")])
+        model, mlog = core.build_model("C10")
+        if exe is None or model is None:
+            print((log or "")[-2000:], (mlog or "")[-2000:]); return 1
+        a, err = core.run_lines(exe, [op], shards=1, env={"VERIF_STDERR": "1"})
+        m, _ = core.run_lines(model, [op], shards=1)
+        print("op:   ", op[:2000]); print("impl: ", a[0][:2000]); print("model:", m[0][:2000]); print("stderr:", err[-1500:])
+        return 0
     exe, log = core.build_harness("C10", "asan", extra=WRAP)
     if exe is None:
         print(log[-2000:]); return 1
@@ -374,5 +461,5 @@ def finish(ctx):
         "lax getter rules are modelled as they are and recorded as Examples in Tls/HsCodecProofs.v, not asserted away: ClientHello compression methods unconstrained and empty cipher list accepted; bytes after the certificate list ignored; CertificateVerify signature length not bounded by the getter; setters ignoring the status of tls_record_set_handshake (return 1, no record) ; set_certificate_request accepting 256 types (length byte wraps). Patches: work/patches_tls/",
     ]
     return ctx.finish(level="proof",
-                      rule="per protocol x {server-auth, mutual-auth}: single-bit flips at every 3rd payload byte of every handshake record (every byte in the thorough tier) plus all handshake type/length fields and the last byte; per record drop, duplicate, swap-with-next, inject, truncate (+close / +fixed length). cell = (protocol, auth mode, fault kind, region, outcome class). Codec part: per set_/get_ function, structured random admissible fields plus boundary lengths (0, 1, max, max+1), every valid record re-read by its getter and by another message's getter, malformed neighbours of valid records (record type / version flips, handshake type, 24-bit length +-1, truncation and trailing byte with one or both outer lengths adjusted, body removed, inserted / deleted / flipped body bytes, ill-framed buffers) and random bodies under a valid record header; cell = (op, variant class)",
+                      rule="per protocol x {server-auth, mutual-auth}: single-bit flips at every 3rd payload byte of every handshake record (every byte in the thorough tier; every byte of ClientHello, ServerHello and of the client-authentication messages in every tier and every authentication mode) plus all handshake type/length fields and the last byte; per record drop, duplicate, swap-with-next, inject, truncate (+close / +fixed length). cell = (protocol, auth mode, fault kind, region, outcome class). Codec part: per set_/get_ function, structured random admissible fields plus boundary lengths (0, 1, max, max+1), every valid record re-read by its getter and by another message's getter, malformed neighbours of valid records (record type / version flips, handshake type, 24-bit length +-1, truncation and trailing byte with one or both outer lengths adjusted, body removed, inserted / deleted / flipped body bytes, ill-framed buffers) and random bodies under a valid record header; cell = (op, variant class)",
                       trusted=core.TRUSTED_COMMON + ["proxy thread and fault injection of props/C08/tls_peer.h", "Coq files: Tls/Handshake.v HandshakeProofs.v, Tls/KeySched.v, Tls/HsCodec.v HsCodecProofs.v", "codec harness props/C10/hscodec_harness.c and OCaml driver props/C10/driver.ml (argument parsing, printing)", "name tables of src/tls_trace.c (known protocol / cipher suite / handshake type / certificate type / curve values) transcribed into Tls/HsCodec.v"])
